@@ -53,6 +53,21 @@ pub struct StepCase {
     pub outer: bool,
     pub below: u8,
     pub jitter: u64,
+    /// where the evaluation step sits when its evaluator is missing (the requirement must be reported wherever it is):
+    /// 0 top level, 1 body of a branch, 2 else-body of a branch that takes its if-body, 3 else-body that is taken,
+    /// 4 body of a loop that makes no pass, 5 inside a scope in an else-body
+    #[serde(default)]
+    pub placement: u8,
+}
+
+/// Calls the objective function once (so that "nothing executed" is observable as zero objective calls).
+#[derive(Clone, Serialize)]
+struct CallsObjective;
+impl mahf::Component<RealP> for CallsObjective {
+    fn execute(&self, problem: &RealP, _state: &mut State<RealP>) -> ExecResult<()> {
+        let _ = problem.objective(&vec![0.0, 0.0]);
+        Ok(())
+    }
 }
 
 struct Recording {
@@ -76,7 +91,7 @@ impl Check for StepCheck {
         "C06/evaluation-step".into()
     }
     fn classes(&self) -> &'static [&'static str] {
-        &["population >= 2", "parallel with >= 2 threads", "missing evaluator", "evaluator in outer scope", "empty population or stack", "duplicates by value", "already evaluated individuals"]
+        &["population >= 2", "parallel with >= 2 threads", "missing evaluator", "evaluator in outer scope", "empty population or stack", "duplicates by value", "already evaluated individuals", "missing evaluator for a step nested in control flow"]
     }
     fn oracle(&self, c: &StepCase) -> Outcome {
         let mut cl = 0;
@@ -173,7 +188,24 @@ fn step_oracle<I: Identifier>(c: &StepCase, cl: &mut u64) -> Result<(), Failure>
     reg.insert(ps);
     reg.insert(Random::new(5));
     let mut state: State<'static, RealP> = reg.into();
-    let cfg = Configuration::<RealP>::builder().evaluate_with::<I>().build();
+    let cfg = if c.registered % 3 == 0 {
+        Configuration::<RealP>::builder().evaluate_with::<I>().build()
+    } else {
+        use mahf::conditions::{EveryN, LessThanN as Lt};
+        // a step with the (registered) ... no: nothing else may run either - a first component that calls the objective
+        let probe = Configuration::<RealP>::builder().do_(Box::new(CallsObjective));
+        match c.placement % 6 {
+            0 => probe.evaluate_with::<I>().build(),
+            1 => probe.if_(EveryN::iterations(1), |b| b.evaluate_with::<I>()).build(),
+            2 => probe.if_else_(EveryN::iterations(1), |b| b, |b| b.evaluate_with::<I>()).build(),
+            3 => probe.if_else_(Lt::iterations(0), |b| b, |b| b.evaluate_with::<I>()).build(),
+            4 => probe.while_(Lt::iterations(0), |b| b.evaluate_with::<I>()).build(),
+            _ => probe.if_else_(EveryN::iterations(1), |b| b, |b| b.while_(Lt::iterations(1), |b| b.evaluate_with::<I>())).build(),
+        }
+    };
+    if c.registered % 3 != 0 && c.placement % 6 != 0 {
+        *cl |= 128;
+    }
     let at = format!("{c:?}");
     let run = |state: &mut State<'static, RealP>| catch(|| cfg.run(&problem, state));
     let r = match c.evaluator {
@@ -577,9 +609,9 @@ fn step_strategy() -> impl Strategy<Value = StepCase> {
         prop_oneof![2 => Just(Ev::Sequential), 1 => Just(Ev::Recording), 4 => prop_oneof![Just(1u8), Just(2), Just(4), Just(16)].prop_map(Ev::Parallel)],
         any::<bool>(),
         0u8..3,
-        0u64..4,
+        (0u64..4, 0u8..6),
     )
-        .prop_map(|(pop, empty_stack, id, registered, evaluator, outer, below, jitter)| StepCase { pop, empty_stack, id, registered, evaluator, outer, below, jitter })
+        .prop_map(|(pop, empty_stack, id, registered, evaluator, outer, below, (jitter, placement))| StepCase { pop, empty_stack, id, registered, evaluator, outer, below, jitter, placement })
 }
 
 fn run_strategy(k: usize) -> impl Strategy<Value = RunCase> {
